@@ -70,7 +70,7 @@ func successPoints(c *Ctx, fn *ssa.Function, idx int, verdicts []string) (pts []
 			}
 		}
 		// a non-nil error: loaded global Err*, a fresh &Error{}, or a value known non-nil on this path
-		if isErrorValue(fn, rp.Block, v) {
+		if isErrorValue(fn, rp.Block, v, rp.EdgeFacts...) {
 			continue
 		}
 		undecided = append(undecided, fmt.Sprintf("%s: cannot tell whether the returned error %v can be nil", c.pos(rp.Pos), v))
@@ -78,7 +78,7 @@ func successPoints(c *Ctx, fn *ssa.Function, idx int, verdicts []string) (pts []
 	return
 }
 
-func isErrorValue(fn *ssa.Function, b *ssa.BasicBlock, v ssa.Value) bool {
+func isErrorValue(fn *ssa.Function, b *ssa.BasicBlock, v ssa.Value, extra ...Fact) bool {
 	switch t := v.(type) {
 	case *ssa.UnOp:
 		if t.Op == token.MUL {
@@ -95,14 +95,15 @@ func isErrorValue(fn *ssa.Function, b *ssa.BasicBlock, v ssa.Value) bool {
 		}
 	}
 	// known non-nil on this path
-	for _, f := range factsAt(fn, b) {
+	all := append(factsAt(fn, b), extra...)
+	for _, f := range all {
 		if matchGuard(f, Guard{Op: "eq", A: isValue(v), B: isNilConst, Holds: false}) {
 			return true
 		}
 	}
 	// ctx.Err() style / extract of a call compared on this path
 	if e, ok := v.(*ssa.Extract); ok {
-		for _, f := range factsAt(fn, b) {
+		for _, f := range all {
 			if matchGuard(f, Guard{Op: "eq", A: isValue(e), B: isNilConst, Holds: false}) {
 				return true
 			}
